@@ -27,8 +27,7 @@ func childMain(path string) int {
 		fmt.Fprintln(os.Stderr, "child: cannot decode case:", err)
 		return 3
 	}
-	base, _ := os.MkdirTemp(os.Getenv("VERIF_SCRATCH"), "c07-child-")
-	defer os.RemoveAll(base)
+	base := os.Getenv(childEnv + "_DIR")
 	reps := c.Sub
 	if reps < 1 {
 		reps = 1
@@ -50,6 +49,8 @@ func runInChild(res *kit.Result, c Case) {
 	f.Write(js)
 	f.Close()
 	defer os.Remove(f.Name())
+	base, _ := os.MkdirTemp(kit.Scratch, "c07-child-")
+	defer os.RemoveAll(base)
 	cmd := exec.Command(os.Args[0])
 	env := []string{}
 	for _, kv := range os.Environ() {
@@ -59,7 +60,7 @@ func runInChild(res *kit.Result, c Case) {
 		env = append(env, kv)
 	}
 	// in the race twin the child is a -race binary as well: first report ends it with status 66
-	env = append(env, childEnv+"="+f.Name(), "GORACE=halt_on_error=1 exitcode=66", "VERIF_SCRATCH="+kit.Scratch)
+	env = append(env, childEnv+"="+f.Name(), childEnv+"_DIR="+base, "GORACE=halt_on_error=1 exitcode=66", "VERIF_SCRATCH="+kit.Scratch)
 	cmd.Env = env
 	done := make(chan struct{})
 	var out []byte
@@ -78,7 +79,6 @@ func runInChild(res *kit.Result, c Case) {
 		return
 	}
 	text := string(out)
-	// a child directory may be left behind by a killed child
 	for _, marker := range []string{"fatal error: concurrent map", "WARNING: DATA RACE"} {
 		if i := strings.Index(text, marker); i >= 0 {
 			res.Fail("C07.I3", "child process working on %d distinct documents in %d goroutines died (%v): %s", len(c.Docs), len(c.Docs), runErr, clip(text[i:], 1200))
